@@ -597,6 +597,11 @@ ZDICT_trainFromBuffer_fastCover(void* dictBuffer, size_t dictBufferCapacity,
     {
       /* Initialize array to keep track of frequency of dmer within activeSegment */
       U16* segmentFreqs = (U16 *)calloc(((U64)1 << parameters.f), sizeof(U16));
+      if (segmentFreqs == NULL) {
+          FASTCOVER_ctx_destroy(&ctx);
+          return ERROR(memory_allocation);
+      }
+      {
       const size_t tail = FASTCOVER_buildDictionary(&ctx, ctx.freqs, dictBuffer,
                                                 dictBufferCapacity, coverParams, segmentFreqs);
       const unsigned nbFinalizeSamples = (unsigned)(ctx.nbTrainSamples * ctx.accelParams.finalize / 100);
@@ -610,6 +615,7 @@ ZDICT_trainFromBuffer_fastCover(void* dictBuffer, size_t dictBufferCapacity,
       FASTCOVER_ctx_destroy(&ctx);
       free(segmentFreqs);
       return dictionarySize;
+      }
     }
 }
 
